@@ -1079,6 +1079,19 @@ func c08r3(c *core.Ctx) {
 			}
 		}
 	}
+	// (or through a method of the list type with a pointer receiver: m.observers[evt].add(o))
+	if reg == nil {
+		for _, f := range m.Funcs {
+			core.InspectNoLits(f.Body, func(n ast.Node) bool {
+				if x := appendThroughPointer(m, n); x != nil {
+					if ix, ok := ast.Unparen(x).(*ast.IndexExpr); ok && fieldKeyOf(m, ix.X) == "observerManager.observers" {
+						reg = f
+					}
+				}
+				return true
+			})
+		}
+	}
 	if reg == nil {
 		c.Undecide("C08/R3", "register role", "no function appends to observerManager.observers")
 		return
